@@ -235,6 +235,21 @@ CLAIMED = {
             'Accuracy of the Taylor steps (degree, Euler step h, the /2 safety factor) is numerical and '
             'not decided.',
             'DESIGN.md section 4 (C34)'),
+    'C40': ('H-pickle-pairing',
+            'static analysis: writer/reader pairing rules (field-by-field agreement of to_pickable and '
+            'from_pickable, slot agreement of __getstate__/__setstate__), hook classification on the '
+            'number classes, by-name registration of dynamically created value classes, and an '
+            'aliasing rule with detach-dominance for matrix.copy',
+            'A round trip is exact iff writer and reader agree field by field and nothing on the way '
+            'rounds or recomputes: all four tuple fields keep their position, only the mantissa is '
+            'transcoded with the same base on both sides, __setstate__ stores straight into the slot the '
+            'state was read from, no hook rebuilds a number through the rounding constructor, the '
+            'classes pickle must find by name are registered, and matrix.copy yields storage no in-place '
+            'mutation of the original can reach.  Found and repaired: matrices could not be pickled at '
+            'all.',
+            'Trusts hex()/MPZ(.,16) to be mutually inverse and the pickle protocol machinery of CPython; '
+            'classes of clone contexts / fp / iv matrices are outside the property text and not checked.',
+            'DESIGN.md section 4 (C40)'),
 }
 
 NA_REASONS = {
